@@ -511,6 +511,14 @@ def _role_score(fn: ast.FunctionDef, ref_exprs: set, t: str, x: str) -> int:
     import copy as _copy
     n = 0
     for h in ast.walk(fn):
+        if isinstance(h, (ast.If, ast.While)) and isinstance(h.test, ast.Name) and h.test.id == t:
+            if f"if {x}" in ref_exprs or f"if not {x}" in ref_exprs:
+                n += 1                  # a flag tested by name
+            continue
+        if isinstance(h, ast.Assign) and len(h.targets) == 1 and isinstance(h.targets[0], ast.Name) and h.targets[0].id == t and isinstance(h.value, ast.Constant):
+            if f"{x} = {ast.unparse(h.value)}" in ref_exprs:
+                n += 1                  # the same literal assigned
+            continue
         if isinstance(h, (ast.Call, ast.BinOp, ast.Compare, ast.Subscript, ast.Attribute, ast.AugAssign, ast.Return)) and any(isinstance(y, ast.Name) and y.id == t for y in ast.walk(h)):
             c = _copy.deepcopy(h)
             for y in ast.walk(c):
@@ -603,6 +611,8 @@ def _rename_locals(fn: ast.FunctionDef, template, ref_fn=None) -> None:
         try:
             rtree = ast.parse(ref_fn["src"])
             ref_exprs = {ast.unparse(n) for n in ast.walk(rtree) if isinstance(n, (ast.Call, ast.BinOp, ast.Compare, ast.Subscript, ast.Attribute, ast.AugAssign, ast.Return))}
+            ref_exprs |= {ast.unparse(n) for n in ast.walk(rtree) if isinstance(n, ast.Assign) and isinstance(n.value, ast.Constant)}
+            ref_exprs |= {"if " + ast.unparse(n.test) for n in ast.walk(rtree) if isinstance(n, (ast.If, ast.While))}
         except SyntaxError:
             ref_exprs = set()
     pairs = sorted(set(cands))
@@ -1021,7 +1031,14 @@ def _init_only_attrs(tree: ast.Module) -> set:
         for y in ast.walk(x) if not isinstance(x, (ast.FunctionDef, ast.ClassDef)) else []:
             if isinstance(y, ast.Attribute) and isinstance(y.ctx, (ast.Store, ast.Del)):
                 elsewhere.add(y.attr)
-    _INIT_ONLY_ATTRS = in_init - elsewhere
+    # methods (and their name-mangled spellings) that are never stored as attributes: `self.m` is always the same bound method
+    methods = set()
+    for c in [n for n in ast.walk(tree) if isinstance(n, ast.ClassDef)]:
+        for m in [n for n in c.body if isinstance(n, ast.FunctionDef)]:
+            methods.add(m.name)
+            if m.name.startswith("__") and not m.name.endswith("__"):
+                methods.add(f"_{c.name}{m.name}")
+    _INIT_ONLY_ATTRS = (in_init - elsewhere) | (methods - in_init - elsewhere)
     return _INIT_ONLY_ATTRS
 
 
@@ -1775,6 +1792,8 @@ def _rename_by_role(fn: ast.FunctionDef, ref_fn: dict, known: set) -> None:
     except SyntaxError:
         return
     ref_exprs = {ast.unparse(n) for n in ast.walk(rtree) if isinstance(n, (ast.Call, ast.BinOp, ast.Compare, ast.Subscript, ast.Attribute))}
+    ref_exprs |= {ast.unparse(n) for n in ast.walk(rtree) if isinstance(n, ast.Assign) and isinstance(n.value, ast.Constant)}
+    ref_exprs |= {"if " + ast.unparse(n.test) for n in ast.walk(rtree) if isinstance(n, (ast.If, ast.While))}
     params = {p.arg for p in fn.args.posonlyargs + fn.args.args + fn.args.kwonlyargs} | ({fn.args.vararg.arg} if fn.args.vararg else set()) | ({fn.args.kwarg.arg} if fn.args.kwarg else set())
     if any(isinstance(n, (ast.Global, ast.Nonlocal, ast.Lambda)) or (isinstance(n, ast.FunctionDef) and n is not fn) for n in ast.walk(fn)):
         return
@@ -2195,11 +2214,13 @@ def canonicalise(tree: ast.Module, rel: str = "") -> ast.Module:
                             canon.normalise_expression_forms(n, rf)
                             canon.thread_none_flag(n, known)
                             canon.specialise_constant_tail(n, rf)
+                            canon.split_conditional_update(n, rf, known)
                             canon.sink_tail_into_branches(n, rf)
                             canon.sink_use_into_branches(n, rf, known)
                             canon.enumerate_to_counter(n, rf, known)
                             canon.dict_iteration_forms(n, rf)
                             canon.unroll_literal_loops(n, rf, known)
+                            canon.range_loops_to_while(n, rf)
                             canon.hoist_common_tail(n, rf)
                             canon.normalise_control_flow(n, rf.get("tests", []), rf.get("forms", {}))
                             canon.adopt_reference_tests(n, rf)
